@@ -154,9 +154,9 @@ KERNEL_TRUST = [
 
 CHECKS = {
     "C01": scen_check(
-        "eng_life", "exploration",
+        [("eng_life", "asan"), ("eng_life", "asan-nd")], "exploration",
         "random API histories (1-8 calls of wait/stop/terminate/kill/pid/sleep) against scripted children on a "
-        "virtual timeline; first 256 cases enumerate every exit code, next 23 every terminating signal; "
+        "virtual timeline, run against the library built with its asserts on and again with NDEBUG (the shipped configuration); first 256 cases enumerate every exit code, next 23 every terminating signal; "
         "non-trivial = a status was returned and checked against the kernel's waitid() account; distinct = "
         "(ending kind, code/signal class, op-sequence shape)",
         {"status_returns": 1500, "stable_rechecks": 500, "codes_seen": 250}, assumptions=KERNEL_TRUST),
@@ -202,7 +202,7 @@ CHECKS = {
         {"polls_checked": 2500, "event_polls": 1000, "probes": 1000, "epipe_expected": 50, "bits_checked": 1500},
         assumptions=KERNEL_TRUST),
     "C02": scen_check(
-        [("eng_io", "asan"), ("eng_io", "plain", {"tiers": ["thorough"], "limit": 300,
+        [("eng_io", "asan"), ("eng_io", "asan-nd"), ("eng_io", "plain", {"tiers": ["thorough"], "limit": 300,
                               "prefix": ["valgrind", "-q", "--error-exitcode=99", "--num-callers=12"]})], "exploration",
         "six workload templates (bulk output over both streams with sizes 0..5 MB straddling 64 KiB; fine-grained "
         "interleavings of child writes/closes/exit with parent reads of sizes 0,1,7,4096,65536; stdin transfers in every "
@@ -229,7 +229,7 @@ CHECKS = {
         assumptions=KERNEL_TRUST + ["the C++ pass runs free-running helper children in real time: only time-independent facts are asserted (plus 'an expired deadline with open streams yields timed_out')"],
         extra=cxxio_pass),
     "C17": scen_check(
-        "eng_io", "exploration",
+        [("eng_io", "asan"), ("eng_io", "asan-nd")], "exploration",
         "reads/writes on every pipe state (empty, partly filled, full, far side closed) with an idle, slow or never-reading "
         "child, nonblocking (2/3) and blocking (1/3), start-up input sizes {0,1,4096,65535,65536,65537,70000,1M}; waiting is "
         "observed at the libc boundary (virtual-time advance inside read/write, O_NONBLOCK flag of the descriptor); "
